@@ -300,6 +300,9 @@ var raceLog string
 // are artefacts of the abandonment (the deadlock itself is reported) and are not attributed to the code under test.
 var zombies bool
 
+// isolatedBudget: child executions this worker may still spend on the one-process-per-execution fallback.
+var isolatedBudget = 3000
+
 func raceLogSize() int64 {
 	if raceLog == "" {
 		return 0
@@ -479,10 +482,27 @@ func exploreHarness(c *runner.Ctx, h harness, bound int, race bool, linCache map
 	if race {
 		before = raceLogSize()
 	}
-	res := ex.Explore()
+	noBudget := 0
+	bud := &isolatedBudget
+	if race {
+		bud = &noBudget // race reports of child processes are not collected: the plain workers explore the same harness
+	}
+	res, isolated := ex.ExploreIsolating(c.RunCaseInChild, os.Getenv("VERIF_SCRATCH"), bud, func(prefix []int, stderr string, err error) {
+		if strings.Contains(stderr, "HARNESS-ERROR") {
+			fmt.Fprintln(os.Stderr, stderr)
+			os.Exit(3)
+		}
+		c.Violation("isolated-execution-crashed", map[string]interface{}{"harness": h.String(), "schedule": prefix, "error": err.Error(), "stderr": stderr})
+	})
+	if isolated {
+		c.Count("harnesses_explored_with_one_process_per_execution", 1)
+	}
 	if res.Diverged != "" {
-		fmt.Fprintf(os.Stderr, "HARNESS-ERROR: %s (harness %s)\n", res.Diverged, h)
-		os.Exit(3)
+		// process-global state of the code under test survives between executions and no isolated-process budget is left
+		c.MarkIncomplete()
+		c.Note("replay divergence (process-global state survives between executions): harness not explored in this mode: " + res.Diverged)
+		c.Done(false, 0)
+		return exploreStats{}
 	}
 	if race {
 		if after := raceLogSize(); after > before && !zombies {
